@@ -59,7 +59,7 @@ CLAIMED = {
                 note="Restricted to combinations cglue accepts at compile time.",
                 tech="runtime monitoring: exhaustive generated cast sites with event-log dispatch oracle"),
     "C10": dict(cat="exploration", design="§5 C10",
-                text="Model-based runtime monitoring: a sequential reference model of handle counts is stepped in lock-step with real CArc/CArcSome pools over bounded-exhaustive and seeded histories, forged handles with counting clone/drop stubs (shared cell, one handle per reference, no drop function) observe which functions the library calls, payloads aligned to 16..4096 bytes, Send/Sync parity with Arc read out by a probe, and concurrent workloads run under Miri's data-race detector (one schedule seed per process) and TSan. Held on the executions driven, not a proof.",
+                text="Model-based runtime monitoring: a sequential reference model of handle counts is stepped in lock-step with real CArc/CArcSome pools over bounded-exhaustive and seeded histories, forged handles with counting clone/drop stubs (shared cell, one handle per reference, no drop function) observe which functions the library calls, payloads aligned to 16..4096 bytes, Send/Sync parity with Arc read out by a probe, handles dropped by an unwinding scope, and concurrent workloads run under Miri's data-race detector (one schedule seed per process) and TSan. Held on the executions driven, not a proof.",
                 note="Trusts: Weak::strong_count as the real count; Miri with Stacked Borrows disabled; the tracking allocator and Tracked registry in /verif/vmon.",
                 tech="runtime monitoring: reference-model differential + Miri/ASan/TSan + counting stubs"),
     "C11": dict(cat="exploration", design="§5 C11",
@@ -67,7 +67,7 @@ CLAIMED = {
                 note="Trusts the harness model and the tracking allocator; Miri with Stacked Borrows disabled.",
                 tech="runtime monitoring: differential against Vec + allocator/registry monitors + Miri/ASan/valgrind"),
     "C12": dict(cat="exploration", design="§5 C12",
-                text="Round-trip monitors for slices (every length in range, four element types, address/len/content/write-through), the UTF-8 decision compared with core::str::from_utf8 exhaustively for all byte strings up to length 3 and a boundary alphabet beyond, and every variant/accessor of COption/CResult/CTup with drop-tracked payloads; natively, under Miri and ASan.",
+                text="Round-trip monitors for slices (every length in range, four element types, address/len/content/write-through), the UTF-8 decision compared with core::str::from_utf8 exhaustively for all byte strings up to length 3 and a boundary alphabet beyond, and every variant/accessor of COption/CResult/CTup with drop-tracked payloads, clone/clone_from over every variant pair; natively, under Miri and ASan.",
                 note="Trusts core::str::from_utf8 as the UTF-8 reference.",
                 tech="runtime monitoring: exhaustive small-domain round trips + reference validator + Miri/ASan"),
     "C13": dict(cat="exploration", design="§5 C13",
@@ -79,11 +79,11 @@ CLAIMED = {
                 note="Trusts the tracking allocator's live table; debug build + Miri are the leak oracles (release may elide a leaked Box).",
                 tech="runtime monitoring: exhaustive small alphabet + allocator accounting + Miri/ASan/valgrind"),
     "C15": dict(cat="exploration", design="§5 C15",
-                text="Exhaustive grid of item counts x stop positions x entry points x sinks for callbacks, and n x advance x non-fused gap for CIterator, with sequence-numbered drop-tracked items; natively, under Miri and ASan; the C helper macros and the C++ bridges of the processed headers run the same way.",
+                text="Exhaustive grid of item counts x stop positions x entry points x sinks (incl. zero-sized Extend collections) for callbacks, and n x advance x non-fused gap for CIterator, with sequence-numbered drop-tracked items; natively, under Miri and ASan; the C helper macros and the C++ bridges of the processed headers run the same way.",
                 note="Trusts the harness sinks/sources.",
                 tech="runtime monitoring: exhaustive grid with sequence + ownership oracles, Miri/ASan"),
     "C19": dict(cat="exploration", design="§5 C19",
-                text="A Future/Stream/Sink polled through an opaque CGlue object interprets waker scripts (clone/wake/wake_by_ref/drop/send-to-thread, inside and after the poll); a counting Arc waker is the oracle for wake counts and for the reference count never dropping below the caller's own handles and returning to baseline. All scripts up to depth 5-6 natively, depth 3 under Miri, threaded scripts under Miri schedule seeds and TSan; the no_std build of the library under concurrent clone/wake/drop of a retained handle (native + Miri).",
+                text="A Future/Stream/Sink (poll_ready, a parked poll_flush, poll_close) polled through an opaque CGlue object interprets waker scripts (clone/wake/wake_by_ref/drop/send-to-thread, inside and after the poll); a counting Arc waker is the oracle for wake counts and for the reference count never dropping below the caller's own handles and returning to baseline. All scripts up to depth 5-6 natively, depth 3 under Miri, threaded scripts under Miri schedule seeds and TSan; the no_std build of the library under concurrent clone/wake/drop of a retained handle (native + Miri).",
                 note="Trusts Arc strong counts read through a Weak; Miri with Stacked Borrows disabled.",
                 tech="runtime monitoring: scripted workload + reference-count oracle + Miri/ASan/TSan"),
 }
